@@ -242,6 +242,14 @@ func runPrec(r *core.Run) {
 		return
 	}
 	opUnary := vals["OpUnary"]
+	tokVals := map[string]int64{}
+	for n, c := range constsOfType(pk, "TokenType") {
+		tokVals[n] = mustInt(c.ExactString())
+	}
+	if _, ok := tokVals["PreIncrToken"]; !ok {
+		r.BrokenAnchor("js.PreIncrToken")
+		return
+	}
 	checked := 0
 	for _, b := range fn.Blocks {
 		for _, in := range b.Instrs {
@@ -265,9 +273,22 @@ func runPrec(r *core.Run) {
 				}
 				checked++
 				k, isC := pp.Edges[i].(*ssa.Const)
-				good := isC && k.Value != nil && k.Int64() == opUnary
-				r.Check(good, fmt.Sprintf("parseExpression prefix operator path #%d enters the suffix loop as OpUnary", checked), lp.Block().Preds[i].Instrs[0].Pos(), "",
-					"a prefix (unary) expression reaches parseExpressionSuffix with a left precedence other than OpUnary: `-a ** b` or `-2 = x` would be accepted, and member/call suffixes would attach to the whole unary expression")
+				// ECMAScript: `++ UnaryExpression` / `-- UnaryExpression` are UpdateExpressions (they may be the
+				// left operand of **); every other prefix operator yields a UnaryExpression (which may not).
+				ops := unaryOpsOf(e, 0)
+				wantName, want := "OpUnary", opUnary
+				allUpdate := len(ops) > 0
+				for _, o := range ops {
+					if o != tokVals["PreIncrToken"] && o != tokVals["PreDecrToken"] {
+						allUpdate = false
+					}
+				}
+				if allUpdate {
+					wantName, want = "OpUpdate", vals["OpUpdate"]
+				}
+				good := isC && k.Value != nil && k.Int64() == want
+				r.Check(good, fmt.Sprintf("parseExpression prefix operator path #%d enters the suffix loop as %s", checked, wantName), lp.Block().Preds[i].Instrs[0].Pos(), "",
+					"a prefix expression reaches parseExpressionSuffix with the wrong left precedence (ECMAScript: ++x and --x are UpdateExpressions, every other prefix operator yields a UnaryExpression): with OpUnary for ++x the valid `++a ** b` is rejected; with anything but OpUnary for the others `-a ** b` or `-2 = x` would be accepted")
 			}
 		}
 	}
@@ -326,6 +347,42 @@ func isUnaryAlloc(v ssa.Value, depth int) bool {
 		}
 	}
 	return false
+}
+
+// unaryOpsOf: the constant operators stored into the Op field of the freshly allocated UnaryExpr(s) behind v.
+func unaryOpsOf(v ssa.Value, depth int) []int64 {
+	if depth > 4 {
+		return nil
+	}
+	switch x := v.(type) {
+	case *ssa.MakeInterface:
+		return unaryOpsOf(x.X, depth+1)
+	case *ssa.Alloc:
+		var out []int64
+		for _, ref := range *x.Referrers() {
+			fa, ok := ref.(*ssa.FieldAddr)
+			if !ok || fieldName(fa.X.Type(), fa.Field) != "Op" {
+				continue
+			}
+			for _, r2 := range *fa.Referrers() {
+				if st, isSt := r2.(*ssa.Store); isSt {
+					if c, isC := st.Val.(*ssa.Const); isC && c.Value != nil {
+						out = append(out, c.Int64())
+					} else {
+						out = append(out, -1)
+					}
+				}
+			}
+		}
+		return out
+	case *ssa.Phi:
+		var out []int64
+		for _, e := range x.Edges {
+			out = append(out, unaryOpsOf(e, depth+1)...)
+		}
+		return out
+	}
+	return nil
 }
 
 var _ = core.ModPath
